@@ -390,8 +390,10 @@ def gen_items(rng, used, shape=None, free_hint=157):
     return items
 
 
-def gen_aside(rng, nfiles=None, weird=True):
-    """abstract description of a well-formed third-party side (for the independent writer)"""
+def gen_aside(rng, nfiles=None, weird=True, full_catalog=False):
+    """abstract description of a well-formed third-party side (for the independent writer);
+    full_catalog: 112 live one-block files scattered over the side, so that the free blocks are fragmented and any added
+    file is refused for lack of a catalog entry after its blocks were taken"""
     reserved = [0, 40, 41] if rng.random() < 0.7 else sorted({40, 41} | set(rng.sample(range(160), rng.choice([1, 3, 10]))))
     avail = [b for b in range(160) if b not in reserved]
     rng.shuffle(avail) if rng.random() < 0.8 else None
@@ -399,6 +401,9 @@ def gen_aside(rng, nfiles=None, weird=True):
     if rng.random() < 0.7:
         rng.shuffle(slots)
     nfiles = rng.choice([0, 1, 2, 4, 9, 20]) if nfiles is None else nfiles
+    if full_catalog:
+        nfiles = 112
+        rng.shuffle(avail)
     files = []
     names = set()
     for _ in range(nfiles):
@@ -407,6 +412,8 @@ def gen_aside(rng, nfiles=None, weird=True):
         n = min(len(avail), rng.choice([1, 1, 1, 2, 3, 8, 30, 79]))
         if rng.random() < 0.04:
             n = min(len(avail), 157)
+        if full_catalog:
+            n = 1
         chain = [avail.pop() for _ in range(n)]
         ls = rng.choice([1, 2, 5, 8, 8])
         lb = rng.choice([0, 1, 127, 254, 255, rng.randint(0, 255)])
@@ -422,7 +429,7 @@ def gen_aside(rng, nfiles=None, weird=True):
                       "kind": rng.choice([0, 1, 2, 3]), "flag": rng.choice([0, 0xFF]), "chain": chain, "lastSectors": ls, "lastBytes": lb,
                       "content": content})
     deleted = []
-    for _ in range(rng.choice([0, 0, 1, 3, 7])):
+    for _ in range(0 if full_catalog else rng.choice([0, 0, 1, 3, 7])):
         if not slots:
             break
         raw = bytearray(rng.getrandbits(8) for _ in range(32)) if weird and rng.random() < 0.5 else bytearray(b"OLDFILE BAS" + bytes([0, 0, rng.choice([5, 200, 0xFF, 0xC8]), 0, 9]) + b"\x00" * 16)
